@@ -388,3 +388,23 @@ def local_bodies(prog, fn, ok=None, depth=2):
                         add(h, d - 1)
     add(fn, depth)
     return out
+
+
+def beta(prog, t, depth=3):
+    """apply closures that are called directly (`let f = |x| ..; f(v)`): call(closure literal, (v,)) becomes the body"""
+    def go(x, d):
+        if not isinstance(x, tuple) or not x:
+            return x
+        if x[0] == "call":
+            args = tuple(go(a, d) for a in x[2])
+            if d > 0 and x[1].name in ("call", "call_mut", "call_once") and len(args) == 2:
+                clo = _peel(args[0])
+                tup = strip(args[1])
+                if isinstance(clo, tuple) and clo and clo[0] == "agg" and clo[1] == "closure" and \
+                        isinstance(tup, tuple) and tup and tup[0] == "agg" and tup[1] == "tuple" and len(tup[4]) <= 2:
+                    r = apply_closure(prog, clo, *tup[4])
+                    if r is not None:
+                        return go(r, d - 1)
+            return (x[0], x[1], args) + tuple(x[3:])
+        return tuple(go(a, d) if isinstance(a, tuple) else a for a in x)
+    return go(t, depth)
